@@ -64,6 +64,11 @@ def _unescape(body):
 
 
 _DIGRAPH = {"<%": "{", "%>": "}", "<:": "[", ":>": "]", "%:": "#", "%:%:": "##"}
+# [lex.digraph] lists these next to the digraphs: alternative spellings of the same tokens.  parse_file -E prints the
+# primary spelling, gcc -E keeps the one written; a paste that happens to form such a word (`a ## n ## d`) is the same
+# token either way
+_ALT_TOKEN = {"and": "&&", "or": "||", "not": "!", "bitand": "&", "bitor": "|", "xor": "^", "compl": "~",
+              "and_eq": "&=", "or_eq": "|=", "xor_eq": "^=", "not_eq": "!="}
 _INT_RE = re.compile(r"(0[xX][0-9a-fA-F]+|0[bB][01]+|[0-9]+)([uUlLzZ]*)$")
 
 
@@ -99,6 +104,8 @@ def tokenize(text):
             out.append(("str", _unescape(s[1:-1])))
         elif k == "chr":
             out.append(("chr", _unescape(s[1:-1])))
+        elif k == "id" and s in _ALT_TOKEN:
+            out.append(("p", _ALT_TOKEN[s]))
         elif k == "id":
             out.append(("id", s))
         elif s in _DIGRAPH:
